@@ -33,6 +33,10 @@ CHECKS = {
     'C20': ('model_checking', 'routing: real RemoteLogHandler + setRemoteLogging + dispatcher logging/reset/remove under operation sequences chosen by '
             'symbolic selectors on 2 connections x 2 modules against a table model; rotation: the real doRollover (incl. the mlzlog super call) on a '
             'real scratch directory with a symbolic retention count resolved by the solver value by value, two rollovers', '5/C20'),
+    'C17': ('fault_enumeration', 'real PersistentMixin over an in-memory file system: the failing file-system operation of a save (crash or OSError) is a '
+            'symbolic selector over all operations, parameter values are symbolic; oracle: target file is the old or the new complete snapshot, a failed save '
+            'is retried, reload equals saved values, cfg > file > default, corrupt contents (kind catalogue) never prevent start-up; byte-wise truncation of '
+            'real JSON text concretely', '5/C17'),
 }
 NOT_YET = 'check not built yet in this round (planned per DESIGN.md section 5); not claimed until its harness runs clean'
 NOT_APPLICABLE = {}
